@@ -76,7 +76,8 @@ where
 {
     // This was checked early in the protocol, but we need to check again here, in case
     // there were no matching pairs of reports.
-    if attributed_values.is_empty() {
+    // A shard without attributed values still has to take part in the shuffle below.
+    if attributed_values.is_empty() && usize::from(ctx.shard_count()) == 1 {
         return Ok(BitDecomposed::new(std::iter::repeat_n(
             Replicated::<Boolean, B>::ZERO,
             usize::try_from(HV::BITS).unwrap(),
@@ -106,6 +107,13 @@ where
         },
         usize::MAX,
     );
+    if attributions.is_empty() {
+        // The shuffle left this shard without rows: it contributes an all-zero histogram.
+        return Ok(BitDecomposed::new(std::iter::repeat_n(
+            Replicated::<Boolean, B>::ZERO,
+            usize::try_from(HV::BITS).unwrap(),
+        )));
+    }
     let grouped_tvs = reveal_breakdowns(&validator.context(), attributions).await?;
     validator.validate().await?;
     let mut intermediate_results: Vec<BitDecomposed<Replicated<Boolean, B>>> = grouped_tvs.into();
